@@ -18,6 +18,6 @@ CONSTANTS
   Forms <- FormsDef
   AltForm <- AltFormDef
   Scales <- ScalesDef
-  Variant = "ok"
-INVARIANT NeverDone
+  Variant = "readcap"
+INVARIANT HashInputOk
 CHECK_DEADLOCK FALSE
